@@ -178,6 +178,10 @@ def build(cfg, float_mode=False):
         from pySDC.implementations.hooks.log_errors import LogGlobalErrorPostRun
 
         cfg = dict(cfg, hooks=list(cfg.get('hooks', [])) + [LogGlobalErrorPostRun])
+    if cfg.get('hook_names'):  # shipped hook classes given by name ('module:Class' below pySDC.implementations.hooks), so that the configuration stays plain data
+        import importlib
+
+        cfg = dict(cfg, hooks=list(cfg.get('hooks', [])) + [getattr(importlib.import_module('pySDC.implementations.hooks.' + n.split(':')[0]), n.split(':')[1]) for n in cfg['hook_names']])
     cp = {'logger_level': 50, 'dump_setup': False, 'hook_class': [RecRes] + list(cfg.get('hooks', [])) + ([ExtEntryHook] if cfg.get('exthook') else []), 'predict_type': cfg.get('predict'),
           'mssdc_jac': cfg.get('jac', True), 'all_to_done': cfg.get('all_to_done', False)}
     if cfg.get('_shared') is not None:
